@@ -1,0 +1,37 @@
+//go:build verif
+
+package oned
+
+import "github.com/makiuchi-d/gozxing"
+
+// Re-exports of unexported steps of the Code 128 and ITF row readers for the /verif correspondence harness
+// (work package oned128).  Compiled only with `-tags verif`; nothing here changes behaviour.
+
+func VerifCode128FindStartPattern(row *gozxing.BitArray) ([]int, error) {
+	return code128FindStartPattern(row)
+}
+
+// VerifCode128DecodeCode returns the best match and the six counters RecordPattern filled.
+func VerifCode128DecodeCode(row *gozxing.BitArray, rowOffset int) (int, []int, error) {
+	counters := make([]int, 6)
+	c, e := code128DecodeCode(row, counters, rowOffset)
+	return c, counters, e
+}
+
+// VerifITFDecodeStart returns the start pattern range and the narrow line width decodeStart stored.
+func VerifITFDecodeStart(row *gozxing.BitArray) ([]int, int, error) {
+	r := &itfReader{narrowLineWidth: -1}
+	sp, e := r.decodeStart(row)
+	return sp, r.narrowLineWidth, e
+}
+
+func VerifITFDecodeEnd(row *gozxing.BitArray, narrowLineWidth int) ([]int, error) {
+	r := &itfReader{narrowLineWidth: narrowLineWidth}
+	return r.decodeEnd(row)
+}
+
+func VerifITFFindGuardPattern(row *gozxing.BitArray, rowOffset int, pattern []int) ([]int, error) {
+	return itfReader_findGuardPattern(row, rowOffset, pattern)
+}
+
+func VerifITFDecodeDigit(counters []int) (int, error) { return itfReader_decodeDigit(counters) }
